@@ -65,13 +65,33 @@ def gen_classes(rng, n_comp=(1, 6), n_proc=(0, 4), handlers=0.5, ctrl=0.15, diam
 
 
 def gen_scenario(rng, ops_range=(1, 25), w=None, raises=0.0, dup_in_create=0.0, clear_disabled=True,
-                 raise_plain=False, reacts=0.0, forget=0.0,
+                 raise_plain=False, reacts=0.0, forget=0.0, traits=0.0, decoy=0.0,
                  **ckw):
     w = {**dict(create=4, add=5, remove=4, delete=3, process=2, clear=0.5, addproc=2, rmproc=1, enable=1.5,
                 dispatch=1.5), **(w or {})}
     lines, kinds, maps = gen_classes(rng, **ckw)
     ctys = [i for i, k in enumerate(kinds) if k in ('c', 'ctrl')]
     ptys = [i for i, k in enumerate(kinds) if k in ('p', 'upd')]
+    if traits and rng.random() < traits:
+        # plain (non-handler) classes whose instances are value objects: all equal, hash alike or are
+        # unhashable, or are falsy — the world must go by identity and by `is None`
+        bases = [[int(b) for b in ln.split()[3].split('=')[1].split(',') if b != '-'] for ln in lines
+                 if ln.startswith('class ')]
+        anc = []
+        for t, bs in enumerate(bases):
+            anc.append({t}.union(*[anc[b] for b in bs]))
+        for t, m in enumerate(maps):
+            # (a handler must stay hashable and distinguishable: the dispatcher keys its registry by weak
+            # references, which compare like their referents — traits only where no handler class inherits them)
+            clean = all(maps[u] is None and kinds[u] != 'ctrl' for u in range(len(maps)) if t in anc[u])
+            if clean and rng.random() < 0.6:
+                tr = rng.sample(['eq', 'falsy'], rng.randint(1, 2)) if kinds[t] in ('p', 'upd') else \
+                    rng.sample(['eq', 'unhash', 'falsy'], rng.randint(1, 2))
+                if 'unhash' in tr and 'eq' in tr:
+                    tr.remove('eq')
+                lines.append(f'trait {t} ' + ' '.join(tr))
+    if decoy and rng.random() < decoy:
+        lines.append(f'decoy {rng.randint(0, 999)}')
     objs, free = {}, []
     oid = 0
     for t in ctys:
